@@ -182,6 +182,16 @@ impl<'s, 'e, 'v> Gen<'s, 'e, 'v> {
         self.e.pick(&[Sz::B, Sz::W, Sz::L])
     }
     fn imm(&mut self, sz: Sz) -> u32 {
+        // operand words that read like instruction words - prefixes above all: an operand is data, whatever it
+        // looks like (a decoder that remembers 'the word before' must not be fooled by it)
+        if self.e.chance(1, 12) {
+            let w = self.e.pick(&[0x01f0u32, 0x0100, 0x0140, 0x01c0, 0x01d0, 0x7800, 0x7c00, 0x7d00, 0x7e00, 0x7f00, 0x6a20, 0x6b20, 0x5800, 0x5470, 0x5670, 0x5700]);
+            return match sz {
+                Sz::B => w >> 8,
+                Sz::W => w,
+                Sz::L => if self.e.chance(1, 2) { w } else { (w << 16) | self.e.pick(&[0x01f0u32, 0x0100, 0x6466, 0x0000]) },
+            } & sz.mask();
+        }
         // now and then an immediate related to current register contents (coincidences)
         if self.e.chance(1, 5) {
             let r = self.s.er[self.e.below(7) as usize];
